@@ -78,6 +78,19 @@ THEOREMS = [
     "Lena.C10.insert_invisible_after",
     "Lena.C10.pipeline_interleave",
     "Lena.C10.liftFS_passes",
+    "Lena.C10.unselected_sublist_of_out",
+    "Lena.C10.write_already_written_adds_output",
+    "Lena.C10.interleave_law_tail",
+    "Lena.C10.groupPlots_passes",
+    "Lena.C10.groupPlots_interleave",
+    "Lena.C10.local_of_localB",
+    "Lena.C10.shared_eq_loop_of_local",
+    "Lena.C10.toCSV_ctxLocal",
+    "Lena.C10.write_ctxLocal",
+    "Lena.C10.render_ctxLocal",
+    "Lena.C10.png_ctxLocal",
+    "Lena.C10.histToGraph_ctxLocal",
+    "Lena.C10.write_shared_interleave",
 ]
 TRUSTED = [
     "Lean 4.33.0 kernel; axioms limited to propext, Classical.choice, Quot.sound (audited by #print axioms on every run)",
@@ -1158,6 +1171,10 @@ def model_requests(case):
 def _cmp_run(name, impl, mod, is_pdf, pipe=False, full=False):
     mb = [[norm_model_item(x, pipe, full) for x in blk] for blk in mod["blocks"]]
     ib = impl["blocks"]
+    if not full:
+        # contents of passed values are compared in aliasing cases only
+        ib = [[(dict(x, c={"t": x["c"]["t"]}) if isinstance(x["t"], int) and x["c"] is not None else x) for x in blk]
+              for blk in ib]
     if is_pdf:
         ib = [[dict(x, **{"pass": isinstance(x["t"], int)}) for x in blk] for blk in ib]
         it = [dict(x, **{"pass": isinstance(x["t"], int)}) for x in impl["tail"]]
@@ -1223,6 +1240,8 @@ def compare(case, res, replies):
         # whenever two positions really share an object
         if m["local"] and any(k == "ctx" for _, _, k in case["alias"]) and _really_shared(case):
             return "model: localB holds for a flow whose values share a context object"
+        if m["local"] and not m["plain_equal"]:
+            return "model: a Local flow on which sharedStep and the value-passing loop differ (shared_eq_loop_of_local)"
         return None
     if case.get("second"):
         sec = case["second"]
@@ -1381,7 +1400,8 @@ def classify(case, res):
         labels.append(f"{el['k']}:err:{res['full']['err']}")
     if case.get("alias"):
         # the locality hypothesis is needed: on how many flows with shared objects does the property fail?
-        labels.append("alias:property-holds" if res.get("law") is None else "alias:property-fails")
+        kind = "ctx-shared" if any(k == "ctx" for _, _, k in case["alias"]) else "same-object-twice"
+        labels.append(f"alias:{kind}:" + ("property-holds" if res.get("law") is None else "property-fails"))
     if case.get("second"):
         labels.append("second-use")
     for s in case["B"]:
@@ -1953,10 +1973,10 @@ def _uniq_pdf(A):
     return out
 
 
-def _pipe_fix(A, ids):
+def _pipe_fix(A, ids, keep_first=True):
     """pipelines with Write: every selected value but the first gets a file name of its own (two produced texts
     written to one path would be compared character by character, which the payload abstraction cannot follow)"""
-    out, first = [], True
+    out, first = [], keep_first
     for v in A:
         c = v.get("c")
         has_name = isinstance(c, dict) and isinstance(c.get("output"), dict) and "filename" in c["output"]
@@ -1983,12 +2003,12 @@ def _mk_case(el, fs, A, B, pat, rng):
     return {"el": el, "fs": fs, "A": A, "B": B, "pat": pat}
 
 
-def _prepare(el, A, B, ids):
+def _prepare(el, A, B, ids, second=False):
     A, B = _one_none(_refresh(A, ids)), _one_none(_refresh(B, ids))
     if el["k"] == "pdf":
         A = _uniq_pdf(A)
     if el["k"] == "pipe" and any(st["k"] == "write" for st in el["stages"]):
-        A = _pipe_fix(A, ids)
+        A = _pipe_fix(A, ids, keep_first=not second)
         # re-sort: a file name may turn a value into one that a stage selects
         A = [v for v in A if ref_selected(el, v)]
     return A, B
@@ -2069,7 +2089,7 @@ def gen_cases(ctx):
                 if (na, nb) in ((1, 1), (2, 1), (1, 2), (2, 2), (0, 2), (3, 3)):
                     A2 = _draw(rng, mk_a(ids, rng), rng.randint(0, 2))
                     B2 = _draw(rng, mk_b(ids, rng), rng.randint(0, 2))
-                    A2, B2 = _prepare(el, A2, B2, ids)
+                    A2, B2 = _prepare(el, A2, B2, ids, second=True)
                     for pat in rng.sample(pats, min(2, len(pats))):
                         pat2 = [True] * len(A2) + [False] * len(B2)
                         rng.shuffle(pat2)
